@@ -46,7 +46,7 @@ def run_many(chk, focus, nruns, wlat=0.02, extra_programs=()):
     todo = list(extra_programs)
     while len(docs) < nruns and attempts < nruns * 4:
         attempts += 1
-        if todo:
+        if todo and attempts % 2 == 1:
             prog, nv = todo.pop(0)
         else:
             prog, nv = gen_for_exec(rng)
